@@ -1,5 +1,5 @@
 #!/usr/bin/env python3
-"""cov.py <check> [max_paths_per_item] [max_items]: line coverage of the property's anchored files while the check's own harnesses run
+"""cov.py <check> [max_paths_per_item|0=item's own] [max_items] [shard/nshards]: line coverage of the property's anchored files while the check's own harnesses run
 (in-process, a few paths per work item). A blind-spot finder for the item generators, not part of any verdict."""
 import sys, os, json, importlib, random, time
 sys.path.insert(0, os.path.dirname(os.path.dirname(os.path.abspath(__file__))))
@@ -17,17 +17,21 @@ from symx.core import Explorer
 core.ARITH_SOLVER = getattr(mod, "OPTS", {}).get("quick", {}).get("arith_solver")
 items = mod.items("quick", random.Random(0))
 random.Random(1).shuffle(items)
+if len(sys.argv) > 4:
+    sh, nsh = [int(x) for x in sys.argv[4].split("/")]
+    items = items[sh::nsh]
 cov.start()
 t0 = time.time()
 n = 0
 for it in items[:mi]:
     params = it["params"]
     try:
-        Explorer(getattr(mod, it["harness"]), params, max_paths=mp, wall_s=10, path_wall_s=10, validate=False, spread=7).run()
+        Explorer(getattr(mod, it["harness"]), params, max_paths=(mp or it.get("max_paths") or 400), wall_s=40, path_wall_s=10, validate=False,
+                 spread=it.get("spread", 7)).run()
     except BaseException as e:
         print("item error", it["name"], type(e).__name__, e)
     n += 1
-    if time.time() - t0 > 600:
+    if time.time() - t0 > 1500:
         break
 cov.stop()
 print("items run", n, "of", len(items))
@@ -35,6 +39,7 @@ for f in files:
     try:
         _, stmts, _, missing, fmt = cov.analysis2(f)
         print("%s: %d stmts, %d missing: %s" % (os.path.relpath(f, REPO), len(stmts), len(missing), fmt))
+        print("MISSING %s %s" % (os.path.relpath(f, REPO), json.dumps(missing)))
     except Exception as e:
         print(f, "no data", e)
 if hasattr(mod, "cleanup"):
